@@ -7,8 +7,10 @@ from .compat import range
 from .module import SourceModule, ImportedModule
 
 try:
-    import importlib.machinery
-    SUFFIXES = importlib.machinery.all_suffixes()
+    import importlib.machinery as _machinery
+    # in the order the import system tries them in one directory
+    SUFFIXES = (_machinery.EXTENSION_SUFFIXES + _machinery.SOURCE_SUFFIXES +
+                _machinery.BYTECODE_SUFFIXES)
 except:
     import imp  # type: ignore[import-not-found]
     SUFFIXES = [s for s, _, _ in imp.get_suffixes()]
